@@ -19,7 +19,7 @@ func init() {
 		Explanation: "Decides the structure that makes establishing all-or-nothing and role-respecting: (R16.1) establish is reached only over the success edge of validate, every write validate can make goes through e.create/e.update carrying client.DryRunAll, the writes of establish never carry it; " +
 			"(R16.2) every call of e.create is control-dependent on control==true and on the not-found / !Exists edge, and APIEstablisher.create is the only function of the establisher that calls client.Create; " +
 			"(R16.3) on control==false update only adds an AsOwner reference and no AsController/AddControllerReference is reachable; (R16.4) ReleaseObjects only ever stores ptr.To(false) into Controller, never shrinks the owner slice, appends an AsOwner reference when absent; " +
-			"(R16.5) create and update add the package owner reference with Controller=false; (R16.6) the reconciler passes DesiredState==Active as control. R16.5 also pins the lookup key: the parent-package label the manager writes on a revision is the package's GetName() itself. R16.1 also requires that every write inside create()/update() passes on the options they were called with (DryRunAll in the validate phase).",
+			"(R16.5) create and update add the package owner reference with Controller=false; (R16.6) the reconciler passes DesiredState==Active as control. R16.5 also pins the lookup key: the parent-package label the manager writes on a revision is the package's GetName() itself. R16.1 also requires that every write inside create()/update() passes on the options they were called with (DryRunAll in the validate phase). R16.5 also requires that every write of update() comes after the package owner reference was looked up.",
 		NotDecided:  []string{"atomicity across the API calls of the second phase (a failing real write after successful dry runs)", "history of owner references across upgrade/rollback sequences", "that a dry-run accepted by the API server implies the real write is accepted"},
 		Assumptions: []string{"client.DryRunAll makes a write side-effect free", "errgroup.Wait returns the first closure error"},
 	})
